@@ -194,7 +194,8 @@ class Feedback:
 
         # Presentation
         if fields is not None:
-            self.fields = fields
+            # A copy: the caller's dictionary may be handed to other feedback
+            self.fields = dict(fields)
         else:
             self.fields = {}
         if self.constant_fields is not None:
